@@ -67,6 +67,8 @@ type JSONOpts struct {
 	used   int
 	// StrPool: when non-empty, every string leaf/key is one of these constants (small vocabulary)
 	StrPool []string
+	// ValPool: when non-empty, every string VALUE is one of these constants
+	ValPool []string
 	// NoEmptyKey etc. could be added here
 }
 
@@ -87,6 +89,49 @@ type Lazy struct {
 	Opts  *JSONOpts
 	Res   *Iface
 	domTouched bool
+	// CopyOf: this value is the JSON round-trip image of another lazy value (resolved on demand)
+	CopyOf *Lazy
+}
+
+// tagOfIface: the tag of a resolved interface value.
+func tagOfIface(iv Iface) int {
+	if iv.T == nil {
+		return TNil
+	}
+	return tagOfType(iv.T)
+}
+
+// syncCopy keeps the domains of a mirrored copy and its source consistent.
+func (ex *Exec) syncCopy(l *Lazy) {
+	src := l.CopyOf
+	if src == nil || l.Res != nil {
+		return
+	}
+	ex.syncCopy(src)
+	if src.Res != nil {
+		l.Dom &= copyDom(tagOfIface(*src.Res))
+	} else {
+		l.Dom &= copyDom(src.Dom)
+	}
+	if l.Dom == 0 {
+		panic(pathEnd{"infeasible"})
+	}
+}
+
+// narrowSource propagates a narrowed copy domain back to the source.
+func (ex *Exec) narrowSource(l *Lazy) {
+	src := l.CopyOf
+	if src == nil {
+		return
+	}
+	if src.Res == nil {
+		src.Dom &= srcTags(l.Dom)
+		src.domTouched = true
+		if src.Dom == 0 {
+			panic(pathEnd{"infeasible"})
+		}
+		ex.narrowSource(src)
+	}
 }
 
 var (
@@ -157,6 +202,8 @@ func tags(dom int) []int {
 // restrict narrows the domain by a fork "in set / not in set". Returns true if in set.
 func (ex *Exec) lazyRestrict(l *Lazy, set int, label string) bool {
 	l.domTouched = true
+	ex.syncCopy(l)
+	defer ex.narrowSource(l)
 	in := l.Dom & set
 	out := l.Dom &^ set
 	if in == 0 {
@@ -181,6 +228,9 @@ func (ex *Exec) lazyResolve(l *Lazy) Iface {
 	ts := tags(l.Dom)
 	if len(ts) != 1 {
 		panic(engineErr("lazyResolve with domain %v", ts))
+	}
+	if l.CopyOf != nil {
+		return ex.resolveCopy(l)
 	}
 	o := l.Opts
 	var r Iface
@@ -230,9 +280,13 @@ func (ex *Exec) lazyResolve(l *Lazy) Iface {
 }
 
 func (ex *Exec) lazyString(name string, o *JSONOpts, isKey bool) Value {
-	if len(o.StrPool) > 0 {
+	if isKey && len(o.StrPool) > 0 {
 		i := ex.chooseN("pool:"+name, len(o.StrPool))
 		return o.StrPool[i]
+	}
+	if !isKey && len(o.ValPool) > 0 {
+		i := ex.chooseN("pool:"+name, len(o.ValPool))
+		return o.ValPool[i]
 	}
 	s := ex.freshString(name)
 	if (o.NoVar && !isKey) || (o.NoVarKeys && isKey) {
@@ -278,8 +332,9 @@ func (ex *Exec) forceMap(m *Map) {
 		} else {
 			v = ex.newLazy(fmt.Sprintf("%s_v%d", sp.name, i), sp.depth, o)
 		}
-		m.Entries = append(m.Entries, &MapEntry{K: k, V: v})
+		m.Entries = append(m.Entries, &MapEntry{K: k, V: v, Input: true, OrigV: v})
 	}
+	m.InputMap = true
 	if n > 1 && len(o.StrPool) == 0 && !ex.replaying() {
 		// distinctness constraints may be jointly unsatisfiable only with tiny alphabets; check once
 		if ex.check() != smt.Sat {
@@ -294,11 +349,13 @@ func (ex *Exec) lazyForce(l *Lazy) Iface {
 		return *l.Res
 	}
 	l.domTouched = true
+	ex.syncCopy(l)
 	ts := tags(l.Dom)
 	if len(ts) > 1 {
 		i := ex.chooseN("tag:"+l.Name, len(ts))
 		l.Dom = ts[i]
 	}
+	ex.narrowSource(l)
 	return ex.lazyResolve(l)
 }
 
